@@ -4,10 +4,10 @@ func init() {
 	register(Harness{
 		Prop: "C13", Pkg: "server/pop3", Func: "VerifC13Session",
 		Quick:    [][]int64{{0, 3, 1, 2}, {1, 4, 0, 3}, {1, 3, 1, 3}, {1, 3, 1, 1}},
-		Thorough: [][]int64{{0, 4, 1, 3}, {1, 6, 0, 3}, {1, 4, 1, 3}, {1, 5, 0, 0}, {1, 5, 0, 1}},
-		Unwind:   60,
-		Desc:     "real pop3.startSession loop: optional USER/PASS prelude, k symbolic steps from a menu (valid, malformed, out-of-range, repeated arguments, any USER/PASS/APOP order), then EOF; ghost POP3 model (snapshot at login, mark set); store content changes behind the session",
-		Bounds:   "params (login prelude?, k symbolic steps, full menu?, messages in the mailbox); symbolic sizes, line selectors, whether the store changes after login",
-		Assumes:  []string{"bufio.Reader.ReadString / fmt.Fprint over the connection and bufio.Scanner are models (zzvrf.Model*); natively the real ones run over the same scripted connection", "numeric arguments come from the menu (0,1,2,3,4,7,9,-1,x): argument parsing is exercised on those strings only"},
+		Thorough: [][]int64{{0, 4, 1, 3}, {1, 6, 0, 3}, {1, 4, 1, 3}, {1, 5, 0, 0}, {1, 5, 0, 1}, {1, 5, 1, 2}}, QTThorough: 400,
+		Unwind:  60,
+		Desc:    "real pop3.startSession loop: optional USER/PASS prelude, k symbolic steps from a menu (valid, malformed, out-of-range, repeated arguments, any USER/PASS/APOP order), then EOF; ghost POP3 model (snapshot at login, mark set); store content changes behind the session",
+		Bounds:  "params (login prelude?, k symbolic steps, full menu?, messages in the mailbox); symbolic sizes, line selectors, whether the store changes after login",
+		Assumes: []string{"bufio.Reader.ReadString / fmt.Fprint over the connection and bufio.Scanner are models (zzvrf.Model*); natively the real ones run over the same scripted connection", "numeric arguments come from the menu (0,1,2,3,4,7,9,-1,x): argument parsing is exercised on those strings only"},
 	})
 }
